@@ -523,11 +523,17 @@ impl PartitionnedMonotonic<Intervals<f64>, (f64,), Term<Intervals<f64>, Unit>, f
         let period = max - min;
         // Compute the shifted version of the set (by an integer number of period) and intersect with partitions
         let partition = move |set: Intervals<f64>| {
-            let shift = ((*set.min().unwrap() - min) / period).floor();
-            let shifted = set
-                .clone()
-                .map_bounds(move |b| b - shift * period)
-                .union(set.map_bounds(|b| b - (shift + 1.) * period));
+            // Each interval of the set is brought back to the reference period by its own number
+            // of periods (a set can span more than two periods without being an interval)
+            let shifted = set.flat_map(move |lower, upper| {
+                let shift = ((lower - min) / period).floor();
+                Intervals::from_interval(lower - shift * period, upper - shift * period).union(
+                    Intervals::from_interval(
+                        lower - (shift + 1.) * period,
+                        upper - (shift + 1.) * period,
+                    ),
+                )
+            });
             partitions
                 .as_ref()
                 .iter()
